@@ -7,7 +7,7 @@ active PathCtx, which explores *both* outcomes when both are feasible under the
 current path condition (exploration by re-execution with a decision prefix, so no
 heap snapshot is needed).  A loop-free function is thereby covered for all values
 of its symbolic inputs; every path ends in a verification condition
-``pc /\ not post`` that must be unsat.
+``pc and not post`` that must be unsat.
 """
 
 from __future__ import annotations
